@@ -239,6 +239,8 @@ func (x *Exec) merge(states []*State) *State {
 		for _, s := range live {
 			if v, ok := s.ghost[k]; ok {
 				x.u.fact("(=> " + s.pc + " (= " + n + " " + v.T + "))")
+			} else if strings.HasPrefix(k, "count:") {
+				x.u.fact("(=> " + s.pc + " (= " + n + " 0))")
 			}
 		}
 		out.ghost[k] = Val{T: n, S: any.S, Ty: any.Ty}
